@@ -62,9 +62,11 @@ def rcgenNotBefore : Int := 157766400
 def rcgenNotAfter : Int := 67090118400
 
 /-- `ValidityRange::new(days)` around `now` -/
+def span (days : Nat) : Nat := days * genSecondsInDay
+
 def validity (noExpiry : Bool) (days : Nat) (now : Int) : Int × Int :=
   if noExpiry && genNoExpirySkipsValidity then (rcgenNotBefore, rcgenNotAfter)
-  else ((if genValiditySymmetric then now - days * genSecondsInDay else now), now + days * genSecondsInDay)
+  else ((if genValiditySymmetric then now - (span days : Int) else now), now + (span days : Int))
 
 /-- the CA certificate and an entity certificate (server / client) as `CertGen::generate` makes them; `ca` names the
     CA's key -/
